@@ -286,6 +286,7 @@ pub proof fn lemma_sp_step_replen(rc0: Rc, rc: Rc, m: LzS, w: Win, ps: nat, upd:
     requires rc_ok(rc), lzs_ok(m), ps < 16, rc_le(rc, rc0), rc_adv(rc0, rc),
     ensures step_good(rc0, sp_step_replen(rc, m, w, ps, upd)),
 {
+    reveal(sp_step_replen);
     lemma_sp_len(rc, m.rep_len, ps, upd);
     match sp_len(rc, m.rep_len, ps, upd) {
         None => {},
@@ -297,6 +298,7 @@ pub proof fn lemma_sp_step_match(rc0: Rc, rc: Rc, m: LzS, w: Win, ps: nat, upd: 
     requires rc_ok(rc), lzs_ok(m), ps < 16, rc_le(rc, rc0), rc_adv(rc0, rc),
     ensures step_good(rc0, sp_step_match(rc, m, w, ps, upd)),
 {
+    reveal(sp_step_match);
     lemma_sp_len(rc, m.len, ps, upd);
     match sp_len(rc, m.len, ps, upd) {
         None => {},
@@ -316,6 +318,7 @@ pub proof fn lemma_sp_step_rep(rc0: Rc, rc: Rc, m: LzS, w: Win, ps: nat, upd: bo
     requires rc_ok(rc), lzs_ok(m), ps < 16, rc_le(rc, rc0), rc_adv(rc0, rc),
     ensures step_good(rc0, sp_step_rep(rc, m, w, ps, upd)),
 {
+    reveal(sp_step_rep);
     let s = m.state;
     lemma_sp_bit(rc, m.is_rep_g0[s as int], upd);
     match sp_bit(rc, m.is_rep_g0[s as int], upd) {
